@@ -211,7 +211,12 @@ def execute(spec, w, ctx):
             return None
         cfg = common.env_cfg(op)
         cfg["step_cap"] = 20 * (r["steps"] or 0) + 20000
+        if cfg.get("log") == "d" and (r["steps"] or 0) > 30000:
+            cfg["log"] = "i"
         intr = op.get("interrupt")
+        if intr and (r["steps"] or 0) > 120000:
+            intr = None
+            discards["interrupt-skipped-long-solve"] = discards.get("interrupt-skipped-long-solve", 0) + 1
         if intr:
             rf = ref(d, prune, fine=True)
             if usable(rf):
@@ -326,6 +331,8 @@ def _batch(i_op, op, spec, w, ctx, live, snap_e, ref, usable, events, states, di
         return None
     games = {"g%d" % d: live[d] for d in keep}
     cfg = common.env_cfg(op)
+    if cfg.get("log") == "d":
+        cfg["log"] = "i"
     cfg["step_cap"] = 20 * sum((ref(d, True)["steps"] or 0) + (ref(d, False)["steps"] or 0) for d in keep) + 50000
     out = ops.run_games(w, games, cfg)
     for d in keep:
